@@ -50,6 +50,9 @@ RefsComplete(e) == e.ev = "refsvec" => \A i \in DOMAIN e.runs : (Range(e.runs[i]
 Wrote(e) == e.ev = "call" /\ e.applied /\ ~e.noop
 \* after the observation or the pipeline failed, the reconcile creates / updates / deletes no composed resource
 FailSafeWrites(e) == (Wrote(e) /\ e.pfail) => e.kind # "cd"
+\* ... nor did it write one BEFORE the pipeline ran: a reconcile whose pipeline failed (function error, fatal result,
+\* requirements that never stabilise) has written no composed resource at all
+FailSafeNothingBefore(e) == (e.ev = "end" /\ e.pfail /\ e.failKind # "") => e.cdw = 0
 \* ... and leaves spec.resourceRefs untouched
 FailSafeRefs(p, e) == (e.ev = "call" /\ e.pfail) => e.post.refs = p.post.refs
 \* a resource that is still desired is never deleted
@@ -88,6 +91,7 @@ Check(i) ==
   /\ (RefsComplete(e) \/ Viol("Refs.Complete", i))
   /\ (ObservedComplete(e) \/ Viol("Observed.Complete", i))
   /\ (FailSafeWrites(e) \/ Viol("FailSafe.Writes", i))
+  /\ (FailSafeNothingBefore(e) \/ Viol("FailSafe.NothingBefore", i))
   /\ (GcDeletesAllUndesired(e) \/ Viol("GcExact.Missed", i))
   /\ (GcDeletesOnlyUndesired(e) \/ Viol("GcExact.Extra", i))
   /\ (e.ev = "reset" \/ i = 1 \/
